@@ -7,7 +7,7 @@ mkdir -p harness/bin evidence replays work
 cp /repo/go.sum harness/go.sum
 (cd harness && go build -tags verif -o bin/kvh ./cmd/kvh)
 mkdir -p lean/Klev/Gen
-for p in consts:Consts notifyprog:Notify facts:Facts; do
+for p in consts:Consts notifyprog:Notify facts:Facts searchprog:Search; do
   prof=${p%%:*}; name=${p##*:}
   ./harness/bin/kvh -profile "$prof" -repo /repo > lean/Klev/Gen/$name.lean.new
   if ! cmp -s lean/Klev/Gen/$name.lean.new lean/Klev/Gen/$name.lean 2>/dev/null; then
